@@ -164,3 +164,8 @@ def run(P: Program, rep: Report):
     if okc["R6"] and not any(r == "C08.R6" for (r, c) in fails):
         rep.ok("C08.R6", f"invariants:{okc['R6']}-post-states", "bibtexparser/library.py")
     rep.samples.extend({"rule": "C08.R2", "history": fmt_hist(h, op), "outcome": o.get("outcome")} for h, op, o in records[5:400:60])
+
+    rep.rule("C08.R9", "no unsafe memoisation in the modules this property rests on: a function decorated with lru_cache / cache / "
+                      "cached_property neither takes nor returns a mutable object (else later calls see stale or shared results)")
+    from . import common as _common
+    _common.no_unsafe_memoisation(P, rep, "C08.R9", ['library', 'model'])
